@@ -5,6 +5,7 @@
  *   -DVC_CASE=0    coverage + frame on one ghost slot anywhere in the buffer
  *   -DVC_CASE=1    (a1 only) edges within 0x7fff of the top of the coordinate range
  *   -DVC_CASE=2    code-level tiling: [lx,mx) then [mx,rx) gives the image of [lx,rx)
+ *   -DVC_CASE=3    -DVC_K sample rows of one pixel row with moving edges (deferred fill of the a8 code)
  *   -DVC_WMAX      largest image width (pixels) the buffer is sized for (multiple of 32/N)
  *
  * Image: 2 rows, stride VC_WMAX pixels + one spare word per row, a guard word
@@ -202,6 +203,43 @@ void harness (void)
         VH_CHECK ("post.abutting_spans_tile", GET (buf + gw * CPW, gs) == GET (buf2 + gw * CPW, gs));
         /* spec-level lemma behind it (before saturation) */
         VH_CHECK ("lemma.count_is_additive", SF_COUNT (N, px, in_lx, in_mx) + SF_COUNT (N, px, in_mx, in_rx) == SF_COUNT (N, px, in_lx, in_rx));
+    }
+#elif VC_CASE == 3
+    /* VC_K consecutive sample rows inside ONE pixel row, the two edges moving by a constant per sample row (stepx_small,
+     * error terms zero): exercises the deferred long-span fill of rasterize_edges_8 across sample rows (fill_start /
+     * fill_end / fill_size), whose spans may overlap, nest or be disjoint.  Coverage is additive over sample rows
+     * (property: "the number of points of the sample grid that lie inside"), saturating. */
+    {
+        VH_IN (vh_i32, in_lstep);
+        VH_IN (vh_i32, in_rstep);
+        pixman_edge_t l, r;
+        int k;
+        sf_i64 total = 0;
+        /* the fill logic depends on the pixel indices of the span ends only: edges start within 2 pixels of the image,
+         * steps of at most the image width per sample row (bounded job) */
+        VH_ASSUME (in_lx > -(2 << 16) && in_lx < ((VC_WMAX + 2) << 16) && in_rx > -(2 << 16) && in_rx < ((VC_WMAX + 2) << 16));
+        VH_ASSUME (in_lstep > -(VC_WMAX << 16) && in_lstep < (VC_WMAX << 16) && in_rstep > -(VC_WMAX << 16) && in_rstep < (VC_WMAX << 16));
+        VH_ASSUME (in_width == VC_WMAX);
+#ifdef VC_INTPOS
+        /* whole-pixel edge positions and steps: the sub-pixel part is the single-sample-row jobs' subject */
+        VH_ASSUME ((in_lx & 0xffff) == 0 && (in_rx & 0xffff) == 0 && (in_lstep & 0xffff) == 0 && (in_rstep & 0xffff) == 0);
+        VH_ASSUME (SF_FRAC (in_y) == SF_Y_FIRST (N));
+#endif
+        VH_ASSUME (SF_FRAC (in_y) + (VC_K - 1) * SF_STEP_Y (N) <= SF_Y_LAST (N));
+        memset (&l, 0, sizeof l);
+        memset (&r, 0, sizeof r);
+        l.x = in_lx; l.stepx_small = in_lstep;
+        r.x = in_rx; r.stepx_small = in_rstep;
+        RAST (&im, &l, &r, in_y, in_y + (VC_K - 1) * (pixman_fixed_t) SF_STEP_Y (N));
+        new_ = GET (buf + gw * CPW, gs);
+        if (is_row)
+        {
+            for (k = 0; k < VC_K; k++)
+                total += SF_COUNT (N, px, (sf_i64) in_lx + (sf_i64) k * in_lstep, (sf_i64) in_rx + (sf_i64) k * in_rstep);
+            VH_CHECK ("post.pixel_is_saturated_sample_count_over_sample_rows", (sf_i64) new_ == SF_SAT (N, (sf_i64) old + total));
+        }
+        else
+            VH_CHECK ("frame.slot_outside_row_unchanged", new_ == old);
     }
 #endif
     VH_END ();
